@@ -26,7 +26,14 @@
 //!     alteration of two fields of one stored block: the boundary between two
 //!     adjacent variable-length fields moved, a field truncated and its
 //!     neighbour extended, two equal-length fields swapped, two transactions
-//!     reordered), then `verify()`.
+//!     reordered; or the LENGTH of one variable-length field changed: bytes /
+//!     characters / elements appended, the tail cut off, the field emptied - for
+//!     the proposer signature, the proposer id, the code list, the delta embedding,
+//!     every string / bytes / vector field of every stored transaction, the
+//!     co-signature list and each co-signature's signer and signature), then
+//!     `verify()`. A tamper case may first append one or two blocks that carry
+//!     validator co-signatures through the public `TensorChain::new_block` /
+//!     `Block::add_signature` / `TensorChain::append_block`.
 //! (c) `Kind::Replay`: a sequential program, then the committed block sequence
 //!     is fed to two real `TensorStateMachine` replicas, each living on its own
 //!     OS thread (its own `HashMap` hash seeds from the simulated getrandom).
@@ -90,6 +97,11 @@ pub enum Tamper {
     /// `RESHAPES`), which keeps the concatenation / the multiset of the field bytes;
     /// `pick` selects among the applicable places of the block
     Reshape { h: u8, kind: u8, pick: u16 },
+    /// the LENGTH of one variable-length field of one stored block changed (`field`:
+    /// index into `VARLEN`, `form`: index into `LENGTH_FORMS`); the contents that
+    /// stay are untouched. `pick` selects among the places of that field kind in the
+    /// block (which transaction / co-signature, which of its fields) and the appended unit
+    Length { h: u8, field: u8, form: u8, pick: u16 },
 }
 
 #[derive(Serialize, Deserialize, Clone, Debug, PartialEq)]
@@ -180,6 +192,13 @@ pub struct Case {
     /// after auto-merge took its candidates).
     #[serde(default)]
     pub max_txs: u8,
+    /// tamper cases: after the program, this many blocks (0-2) that carry validator
+    /// co-signatures are appended through the public block interface
+    /// (`TensorChain::new_block` .. `sign_and_build(identity())`, `Block::add_signature`,
+    /// `TensorChain::append_block`); verify() must accept the chain before the storage
+    /// fault is applied. (absent in older replay files: none)
+    #[serde(default)]
+    pub cosigned_blocks: u8,
     /// register a second validator identity with the chain
     pub second_validator: bool,
     /// one program per thread; one thread = sequential
@@ -226,7 +245,30 @@ const FIELDS: &[&str] = &[
     "tx_added",
     "signatures",
     "tx_last_duplicated",
+    "tx_all_dropped",
 ];
+/// the variable-length fields of a stored block (`Tamper::Length`), each with the
+/// name (out of `FIELDS`) under which an undetected alteration of it is classified
+const VARLEN: &[(&str, &str)] = &[
+    ("signature", "signature"),
+    ("proposer", "proposer"),
+    ("quantized_codes", "quantized_codes"),
+    ("delta_embedding", "delta_embedding"),
+    // every String field of every transaction (keys, labels, table names, ...)
+    ("tx_string", "tx_data"),
+    // every Vec<u8> field of every transaction (values, expected / new data)
+    ("tx_bytes", "tx_data"),
+    // every Vec<f32> field of every transaction
+    ("tx_vector", "tx_data"),
+    // the list of co-signatures, and the two variable-length fields of each entry
+    ("cosignatures", "signatures"),
+    ("cosignature_signature", "signatures"),
+    ("cosignature_validator", "signatures"),
+];
+/// how the length changes: one unit (byte, character, code, f32, list entry) appended;
+/// a second copy of the field's own contents appended; the last unit cut off; the
+/// second half cut off; everything cut off
+const LENGTH_FORMS: &[&str] = &["append-one", "append-copy", "truncate-one", "truncate-half", "empty"];
 
 fn user_key(k: u8) -> String {
     format!("u:k{}", k % NKEYS)
@@ -1372,6 +1414,144 @@ fn reshapes(b: &Block, kind: usize) -> Vec<(Block, String)> {
     out
 }
 
+/// A list with its length changed in the given way (index into `LENGTH_FORMS`), the
+/// elements that stay untouched. None: the form does not apply to a list this short.
+fn resized<T: Clone>(v: &[T], form: usize, unit: T) -> Option<Vec<T>> {
+    let n = v.len();
+    match LENGTH_FORMS[form] {
+        "append-one" => {
+            let mut o = v.to_vec();
+            o.push(unit);
+            Some(o)
+        },
+        "append-copy" if n >= 1 => {
+            let mut o = v.to_vec();
+            o.extend_from_slice(v);
+            Some(o)
+        },
+        "truncate-one" if n >= 1 => Some(v[..n - 1].to_vec()),
+        "truncate-half" if n >= 2 => Some(v[..n / 2].to_vec()),
+        "empty" if n >= 1 => Some(Vec::new()),
+        _ => None,
+    }
+}
+
+/// All alterations of one block that change the length of one variable-length field
+/// of the given kind (index into `VARLEN`) in the given way, each with a description
+/// of the place. `variant` selects the appended unit.
+fn length_alterations(b: &Block, field: usize, form: usize, variant: usize) -> Vec<(Block, String)> {
+    let mut out: Vec<(Block, String)> = Vec::new();
+    let byte = [0x00u8, 0xff, b'!'][variant % 3];
+    let ch = ['!', '0', 'f'][variant % 3];
+    let str_resized = |s: &str| -> Option<String> {
+        let chars: Vec<char> = s.chars().collect();
+        resized(&chars, form, ch).map(|c| c.into_iter().collect())
+    };
+    let len_note = |name: String, from: usize, to: usize| format!("{name}: length {from} -> {to}");
+    match VARLEN[field].0 {
+        "signature" => {
+            if let Some(v) = resized(&b.header.signature, form, byte) {
+                let mut nb = b.clone();
+                let note = len_note("header.signature".into(), b.header.signature.len(), v.len());
+                nb.header.signature = v;
+                out.push((nb, note));
+            }
+        },
+        "proposer" => {
+            if let Some(v) = str_resized(&b.header.proposer) {
+                let mut nb = b.clone();
+                let note = len_note("header.proposer".into(), b.header.proposer.len(), v.len());
+                nb.header.proposer = v;
+                out.push((nb, note));
+            }
+        },
+        "quantized_codes" => {
+            if let Some(v) = resized(&b.header.quantized_codes, form, [0u16, 0xffff, 7][variant % 3]) {
+                let mut nb = b.clone();
+                let note = len_note("header.quantized_codes".into(), b.header.quantized_codes.len(), v.len());
+                nb.header.quantized_codes = v;
+                out.push((nb, note));
+            }
+        },
+        "delta_embedding" => {
+            // as a dense list of coordinates: the dimension changes with the length, an
+            // appended non-zero coordinate adds an entry, a cut one may remove entries
+            let dense = b.header.delta_embedding.to_dense();
+            if let Some(v) = resized(&dense, form, [0.0f32, 1.5, -2.0][variant % 3]) {
+                let mut nb = b.clone();
+                let note = len_note("header.delta_embedding (dimension)".into(), dense.len(), v.len());
+                nb.header.delta_embedding = SparseVector::from_dense(&v);
+                out.push((nb, note));
+            }
+        },
+        "tx_string" | "tx_bytes" | "tx_vector" => {
+            let want = match VARLEN[field].0 {
+                "tx_string" => Fk::Str,
+                "tx_bytes" => Fk::Bytes,
+                _ => Fk::F32s,
+            };
+            for (i, tx) in b.transactions.iter().enumerate() {
+                let fs = tx_fields(tx);
+                for (j, (bytes, kind)) in fs.iter().enumerate() {
+                    if *kind != want {
+                        continue;
+                    }
+                    let new: Option<Vec<u8>> = match want {
+                        Fk::Str => std::str::from_utf8(bytes).ok().and_then(|s| str_resized(s)).map(String::into_bytes),
+                        Fk::Bytes => resized(bytes, form, byte),
+                        _ => {
+                            let units: Vec<[u8; 4]> = bytes.chunks_exact(4).map(|c| [c[0], c[1], c[2], c[3]]).collect();
+                            resized(&units, form, [0.0f32, 1.5, -2.0][variant % 3].to_le_bytes()).map(|u| u.into_iter().flatten().collect())
+                        },
+                    };
+                    let Some(new) = new else { continue };
+                    let mut nf: Vec<Vec<u8>> = fs.iter().map(|f| f.0.clone()).collect();
+                    let note = len_note(format!("transaction {i} ({}) field {j}", tx_kind(tx)), bytes.len(), new.len());
+                    nf[j] = new;
+                    if let Some(t) = tx_with_fields(tx, &nf) {
+                        if t != *tx {
+                            let mut nb = b.clone();
+                            nb.transactions[i] = t;
+                            out.push((nb, note));
+                        }
+                    }
+                }
+            }
+        },
+        "cosignatures" => {
+            let unit = ValidatorSignature { validator: "mallory".into(), signature: vec![byte; 64], block_hash: b.hash() };
+            if let Some(v) = resized(&b.signatures, form, unit) {
+                let mut nb = b.clone();
+                let note = len_note("signatures (list of co-signatures)".into(), b.signatures.len(), v.len());
+                nb.signatures = v;
+                out.push((nb, note));
+            }
+        },
+        "cosignature_signature" => {
+            for (i, s) in b.signatures.iter().enumerate() {
+                if let Some(v) = resized(&s.signature, form, byte) {
+                    let mut nb = b.clone();
+                    let note = len_note(format!("signatures[{i}].signature"), s.signature.len(), v.len());
+                    nb.signatures[i].signature = v;
+                    out.push((nb, note));
+                }
+            }
+        },
+        _ => {
+            for (i, s) in b.signatures.iter().enumerate() {
+                if let Some(v) = str_resized(&s.validator) {
+                    let mut nb = b.clone();
+                    let note = len_note(format!("signatures[{i}].validator"), s.validator.len(), v.len());
+                    nb.signatures[i].validator = v;
+                    out.push((nb, note));
+                }
+            }
+        },
+    }
+    out.retain(|(nb, _)| nb != b);
+    out
+}
+
 fn flip(h: &mut [u8; 32]) {
     h[7] ^= 0x10;
 }
@@ -1451,10 +1631,54 @@ fn first_diff(a: &BTreeMap<String, String>, b: &BTreeMap<String, String>) -> Str
 }
 
 impl C16 {
-    fn run_tamper(&self, w: &World, t: &Tamper, second: Option<&Identity>, out: &mut RunOut) {
+    fn run_tamper(&self, w: &World, t: &Tamper, cosigned: u8, second: Option<&Identity>, out: &mut RunOut) {
         let ctx = &w.ctx;
         let chain = &w.chain;
         let store = chain.store();
+        // blocks that carry validator co-signatures, appended through the public block
+        // interface (the proposer is the chain itself; co-signers: the chain's own
+        // identity and the second validator)
+        for n in 0..cosigned.min(2) {
+            let mut b = chain
+                .new_block()
+                .add_transaction(Transaction::Put { key: user_key(n), data: format!("cosigned#{n}").into_bytes() })
+                .sign_and_build(chain.identity());
+            let bh = b.hash();
+            let mut signers: Vec<&Identity> = vec![chain.identity()];
+            signers.extend(second);
+            for id in signers {
+                if let Err(e) = b.add_signature(ValidatorSignature { validator: id.node_id(), signature: id.sign(&bh), block_hash: bh }) {
+                    out.harness_error = Some(format!("tamper: add_signature: {e}"));
+                    return;
+                }
+            }
+            let ncos = b.signatures.len();
+            match chain.append_block(b) {
+                Ok(_) => {
+                    ctx.probe("cosigned_block_appended");
+                    ctx.event(&format!("block with {ncos} co-signature(s) appended through append_block (height now {})", chain.height()));
+                },
+                Err(e) => {
+                    // "integrity verification succeeds on any chain built through the public
+                    // interface": a correctly linked and signed block is refused
+                    out.violation = Some(Violation {
+                        class: "cosigned-block-refused".into(),
+                        detail: format!("append_block of a block built by new_block()..sign_and_build(identity()) with {ncos} co-signature(s) = Err {}", err_kind(&e)),
+                    });
+                    return;
+                },
+            }
+        }
+        if cosigned > 0 {
+            // "integrity verification succeeds on any chain built through the public interface"
+            if let Err(e) = chain.verify() {
+                out.violation = Some(Violation {
+                    class: "verify-fails-on-untampered-chain:cosigned-block".into(),
+                    detail: format!("verify() = Err {} after a co-signed block was appended through append_block (height {})", err_kind(&e), chain.height()),
+                });
+                return;
+            }
+        }
         let height = chain.height();
         if height == 0 {
             // nothing but the genesis block: no committed block to tamper with
@@ -1462,6 +1686,9 @@ impl C16 {
         }
         let pos = |h: u64| if h == 0 { "genesis" } else if h == height { "tip" } else { "inner" };
         let what: String;
+        // what goes into the violation class when it is coarser than `what`
+        let mut class_what: Option<String> = None;
+        let mut note = String::new();
         match t {
             Tamper::Field { h, field } => {
                 let h = u64::from(*h) % (height + 1);
@@ -1507,6 +1734,15 @@ impl C16 {
                     "tx_last_duplicated" => match b.transactions.last().cloned() {
                         Some(t) => b.transactions.push(t),
                         None => b.transactions.push(Transaction::Delete { key: user_key(0) }),
+                    },
+                    // the whole transaction list cut off
+                    "tx_all_dropped" => {
+                        if b.transactions.is_empty() {
+                            ctx.probe("length_alteration_not_applicable");
+                            ctx.event(&format!("tamper tx_all_dropped: block {h} has no transactions"));
+                            return;
+                        }
+                        b.transactions.clear();
                     },
                     _ => b.signatures.push(ValidatorSignature { validator: "mallory".into(), signature: vec![9u8; 64], block_hash: [3u8; 32] }),
                 }
@@ -1638,6 +1874,58 @@ impl C16 {
                 });
                 what = format!("{}{}:{}", RESHAPES[kind], if shape.is_empty() { String::new() } else { format!(":{shape}") }, pos(hh));
             },
+            Tamper::Length { h, field, form, pick } => {
+                let fi = *field as usize % VARLEN.len();
+                let fo = *form as usize % LENGTH_FORMS.len();
+                // the first block, from h on (cyclically), that has a field of this kind long
+                // enough for this form
+                let mut found: Option<(u64, Block, String)> = None;
+                for off in 0..=height {
+                    let hh = (u64::from(*h) + off) % (height + 1);
+                    let Ok(Some(b)) = chain.get_block(hh) else {
+                        out.harness_error = Some(format!("tamper: block {hh} unreadable before tampering"));
+                        return;
+                    };
+                    let mut alts = length_alterations(&b, fi, fo, (*pick >> 8) as usize);
+                    if !alts.is_empty() {
+                        let (nb, place) = alts.swap_remove(*pick as usize % alts.len());
+                        found = Some((hh, nb, place));
+                        break;
+                    }
+                }
+                let Some((hh, nb, place)) = found else {
+                    ctx.probe("length_alteration_not_applicable");
+                    ctx.event(&format!("tamper length:{}:{}: not applicable to any block", VARLEN[fi].0, LENGTH_FORMS[fo]));
+                    return;
+                };
+                ctx.event(&format!("  block {hh} {place}"));
+                if let Err(e) = write_block(store, hh, &nb) {
+                    out.harness_error = Some(format!("tamper: {e}"));
+                    return;
+                }
+                ctx.probe("field_length_altered");
+                ctx.probe(match LENGTH_FORMS[fo] {
+                    "append-one" | "append-copy" => "field_extended",
+                    "truncate-one" | "truncate-half" => "field_truncated",
+                    _ => "field_emptied",
+                });
+                ctx.probe(match VARLEN[fi].0 {
+                    "signature" => "proposer_signature_length_altered",
+                    "proposer" | "quantized_codes" | "delta_embedding" => "header_field_length_altered",
+                    "tx_string" | "tx_bytes" | "tx_vector" => "tx_field_length_altered",
+                    _ => "cosignature_length_altered",
+                });
+                if VARLEN[fi].0 == "signature" && hh >= 1 && LENGTH_FORMS[fo].starts_with("append") {
+                    ctx.probe("proposer_signature_extended");
+                }
+                if hh >= 1 && hh < height {
+                    ctx.probe("field_length_altered_in_inner_block");
+                }
+                what = format!("length:{}:{}:{}", VARLEN[fi].0, LENGTH_FORMS[fo], pos(hh));
+                // classified by the field that escaped, like a contents alteration of it
+                class_what = Some(format!("field:{}:{}", VARLEN[fi].1, pos(hh)));
+                note = format!(" (block {hh} {place})");
+            },
         }
         ctx.fault_fired("block_record_tampered");
         ctx.fp(&what);
@@ -1654,8 +1942,8 @@ impl C16 {
             // reordered or forged" (TensorChain always registers its own key)
             Ok(()) => {
                 out.violation = Some(Violation {
-                    class: format!("tamper-undetected:{what}"),
-                    detail: format!("after the storage fault '{what}' on a chain of height {height}, verify() still returns Ok"),
+                    class: format!("tamper-undetected:{}", class_what.as_deref().unwrap_or(&what)),
+                    detail: format!("after the storage fault '{what}'{note} on a chain of height {height}, verify() still returns Ok"),
                 });
             },
             Err(e) => {
@@ -1916,12 +2204,18 @@ impl Scenario for C16 {
         }
         let max_txs = if rng.chance(1, 8) { *rng.pick(&[2u8, 3, 4]) } else { 0 };
         let kind = match sel {
-            7 | 8 => Kind::Tamper(match rng.below(12) {
+            7 | 8 => Kind::Tamper(match rng.below(16) {
                 0..=3 => Tamper::Field { h: rng.below(8) as u8, field: rng.below(FIELDS.len() as u64) as u8 },
                 4 => Tamper::Remove { h: rng.below(8) as u8 },
                 5 => Tamper::Swap { a: rng.below(8) as u8, b: rng.below(8) as u8 },
                 6 | 7 => Tamper::Forge { h: rng.below(8) as u8, signer: rng.below(2) as u8, claim_own: rng.chance(1, 2) },
-                _ => Tamper::Reshape { h: rng.below(8) as u8, kind: rng.below(RESHAPES.len() as u64) as u8, pick: rng.below(64) as u16 },
+                8..=11 => Tamper::Reshape { h: rng.below(8) as u8, kind: rng.below(RESHAPES.len() as u64) as u8, pick: rng.below(64) as u16 },
+                _ => Tamper::Length {
+                    h: rng.below(8) as u8,
+                    field: rng.below(VARLEN.len() as u64) as u8,
+                    form: rng.below(LENGTH_FORMS.len() as u64) as u8,
+                    pick: rng.below(1 << 12) as u16,
+                },
             }),
             9 => match rng.below(10) {
                 0 | 1 => Kind::Replay { skew_ms: *rng.pick(&[1u16, 7, 250]), own_id: false },
@@ -1930,10 +2224,22 @@ impl Scenario for C16 {
             },
             _ => Kind::Commits,
         };
+        // tamper cases: a third with one or two co-signed blocks on top; always when the
+        // storage fault is aimed at a co-signature (a commit never stores any)
+        let cosigned_blocks = match &kind {
+            Kind::Tamper(t) => {
+                let n = if rng.chance(1, 3) { rng.range(1, 2) as u8 } else { 0 };
+                match t {
+                    Tamper::Length { field, .. } if VARLEN[*field as usize % VARLEN.len()].1 == "signatures" => n.max(1),
+                    _ => n,
+                }
+            },
+            _ => 0,
+        };
         let stick = *rng.pick(&[0u64, 50, 80, 92]);
         let schedule = if nthreads > 1 { sched::gen_schedule(rng, 30 + 25 * nthreads, stick) } else { Vec::new() };
         let epoch_ms = 1 + rng.below(1 << 41);
-        Case { kind, auto_merge: rng.chance(1, 2), validation, epoch_ms, max_txs, second_validator: rng.chance(1, 2), threads, schedule }
+        Case { kind, auto_merge: rng.chance(1, 2), validation, epoch_ms, max_txs, cosigned_blocks, second_validator: rng.chance(1, 2), threads, schedule }
     }
 
     fn run(&self, case: &Case, ctx: &Arc<RunCtx>) -> RunOut {
@@ -2138,7 +2444,7 @@ impl Scenario for C16 {
         ctx.fp(&format!("h{height}"));
         match &case.kind {
             Kind::Commits => {},
-            Kind::Tamper(t) => self.run_tamper(&world, t, second.as_ref(), &mut out),
+            Kind::Tamper(t) => self.run_tamper(&world, t, case.cosigned_blocks, second.as_ref(), &mut out),
             Kind::Replay { skew_ms, own_id } => self.run_replay(&world, t_init, *skew_ms, *own_id, &mut out),
         }
         out
@@ -2188,6 +2494,11 @@ impl Scenario for C16 {
             c.max_txs = 0;
             v.push(c);
         }
+        if case.cosigned_blocks != 0 {
+            let mut c = case.clone();
+            c.cosigned_blocks -= 1;
+            v.push(c);
+        }
         if case.validation != Validation::default() {
             let mut c = case.clone();
             c.validation = Validation::default();
@@ -2235,6 +2546,18 @@ impl Scenario for C16 {
                 c.kind = Kind::Tamper(Tamper::Field { h: 1, field: *field });
                 v.push(c);
             },
+            Kind::Tamper(Tamper::Length { h, field, form, pick }) if *h > 1 || *pick > 0 => {
+                if *h > 1 {
+                    let mut c = case.clone();
+                    c.kind = Kind::Tamper(Tamper::Length { h: 1, field: *field, form: *form, pick: *pick });
+                    v.push(c);
+                }
+                if *pick > 0 {
+                    let mut c = case.clone();
+                    c.kind = Kind::Tamper(Tamper::Length { h: *h, field: *field, form: *form, pick: 0 });
+                    v.push(c);
+                }
+            },
             Kind::Tamper(Tamper::Reshape { h, kind, pick }) if *h > 1 || *pick > 0 => {
                 if *h > 1 {
                     let mut c = case.clone();
@@ -2280,20 +2603,32 @@ impl Scenario for C16 {
             "equal_length_swap_applied",
             "tx_reorder_applied",
             "header_two_field_alteration_applied",
+            // length alterations of stored blocks
+            "field_extended",
+            "field_truncated",
+            "field_emptied",
+            "proposer_signature_extended",
+            "header_field_length_altered",
+            "tx_field_length_altered",
+            "cosignature_length_altered",
+            "field_length_altered_in_inner_block",
+            "cosigned_block_appended",
         ]
     }
     fn rule(&self) -> String {
-        "A case is one program of begin/put/delete/any-other-Transaction-kind (embed, node create/delete, edge create, table insert/update/delete, compare-and-swap; half of the cases)/commit/rollback/advance-time operations per thread, in a third of the cases with the chain's own key removed from its validator registry somewhere in the program and mostly put back later (the commits in between are refused by Chain::append AFTER their operations were applied; in sequential cases the full store dump, height and tip before and after every failed commit call are compared), in an eighth with max_txs_per_block 2-4 (1 thread: sequential over 2-4 interleaved workspaces, oracle evaluated after every commit and rollback; 2-4 threads: baton-scheduled with an explicit schedule, switches at operation boundaries and at 8 hook sites inside TensorChain::commit, oracle evaluated after quiescence), auto-merge on/off, the chain's codebook / transition-validation configuration (default empty codebook, or TensorChain::with_codebook with 1-3 centroids that are sums of the workspaces' delta directions, state threshold 0.6/0.8/0.95, maximum transition magnitude 0.5/1/3, strict or lenient, full or half dimension: auto-merge's validator accepts some merged transitions and vetoes others), per-workspace delta embeddings (none / orthogonal / identical / overlapping) and shared or disjoint key sets; Tamper cases add one storage fault on the stored block records (14 single-field mutations, removal, swap, forgery re-signed by a non-validator or by another validator, or one of 7 two-field alterations: boundary between adjacent variable-length fields of a stored transaction moved by 1-8 bytes, tail of one transaction's last field moved to the head of the next transaction's first field or back, two equal-length fields swapped within one or across two transactions, two transactions exchanged, two 32-byte header fields swapped, the boundaries quantized_codes|timestamp|proposer of the header moved) followed by verify(); Replay cases feed the committed blocks to two TensorStateMachine replicas on their own OS threads. Non-trivial: at least one block was committed and, for multi-thread cases, two commit calls overlapped in time. Distinct: hash of (kind, thread count, auto-merge, codebook empty or not, validator vetoes, operation kinds in order, late commit failures, sites at which threads were preempted, switch count, height, tamper kind).".into()
+        "A case is one program of begin/put/delete/any-other-Transaction-kind (embed, node create/delete, edge create, table insert/update/delete, compare-and-swap; half of the cases)/commit/rollback/advance-time operations per thread, in a third of the cases with the chain's own key removed from its validator registry somewhere in the program and mostly put back later (the commits in between are refused by Chain::append AFTER their operations were applied; in sequential cases the full store dump, height and tip before and after every failed commit call are compared), in an eighth with max_txs_per_block 2-4 (1 thread: sequential over 2-4 interleaved workspaces, oracle evaluated after every commit and rollback; 2-4 threads: baton-scheduled with an explicit schedule, switches at operation boundaries and at 8 hook sites inside TensorChain::commit, oracle evaluated after quiescence), auto-merge on/off, the chain's codebook / transition-validation configuration (default empty codebook, or TensorChain::with_codebook with 1-3 centroids that are sums of the workspaces' delta directions, state threshold 0.6/0.8/0.95, maximum transition magnitude 0.5/1/3, strict or lenient, full or half dimension: auto-merge's validator accepts some merged transitions and vetoes others), per-workspace delta embeddings (none / orthogonal / identical / overlapping) and shared or disjoint key sets; Tamper cases add one storage fault on the stored block records (15 single-field mutations, removal, swap, forgery re-signed by a non-validator or by another validator, or one of 7 two-field alterations: boundary between adjacent variable-length fields of a stored transaction moved by 1-8 bytes, tail of one transaction's last field moved to the head of the next transaction's first field or back, two equal-length fields swapped within one or across two transactions, two transactions exchanged, two 32-byte header fields swapped, the boundaries quantized_codes|timestamp|proposer of the header moved; or a change of the LENGTH of one variable-length field - proposer signature, proposer id, code list, delta embedding, any string / bytes / f32-vector field of any stored transaction, the co-signature list, a co-signature's signature or signer - by appending one unit, appending a second copy of the field, cutting off the last unit, cutting off the second half, or emptying it; block chosen over genesis, inner blocks and tip), in a third of the tamper cases (and whenever a co-signature is aimed at) after one or two blocks carrying validator co-signatures were appended through new_block / add_signature / append_block and verify() accepted them, followed by verify(); Replay cases feed the committed blocks to two TensorStateMachine replicas on their own OS threads. Non-trivial: at least one block was committed and, for multi-thread cases, two commit calls overlapped in time. Distinct: hash of (kind, thread count, auto-merge, codebook empty or not, validator vetoes, operation kinds in order, late commit failures, sites at which threads were preempted, switch count, height, tamper kind).".into()
     }
     fn components(&self) -> Value {
         json!({
             "real": ["tensor_chain::TensorChain (begin, commit incl. conflict detection and auto-merge, rollback, verify, get_block, height)", "tensor_chain::Chain (append, verify_chain, initialize)", "TransactionWorkspace / TransactionManager", "GlobalCodebook / CodebookManager / TransitionValidator (consulted by auto-merge and for quantized_codes; non-empty codebook in half of the cases)", "Block / BlockHeader hashing, tx merkle root, Ed25519 signing and ValidatorRegistry", "TensorStateMachine::apply_block + compute_state_root (replicas)", "GraphEngine (chain links)", "TensorStore incl. snapshot_bytes/restore_from_bytes"],
-            "simulated": ["thread interleaving (baton scheduler, schedule in the case)", "wall clock (block, workspace and graph-node timestamps)", "OS randomness (Ed25519 keys, HashMap seeds per thread)", "storage faults on block records (direct store writes)", "validator registry membership of the chain's own key (public ValidatorRegistry::remove / register_public_key)"],
+            "simulated": ["thread interleaving (baton scheduler, schedule in the case)", "wall clock (block, workspace and graph-node timestamps)", "OS randomness (Ed25519 keys, HashMap seeds per thread)", "storage faults on block records (direct store writes: contents, length of every variable-length field, removal, swap, forgery)", "validator registry membership of the chain's own key (public ValidatorRegistry::remove / register_public_key)"],
             "stub": ["RaftNode inside TensorStateMachine is constructed but never driven (apply_block only)"]
         })
     }
     fn assumptions(&self) -> Vec<String> {
         vec![
+            "an undetected change of a field's length is classified under the same class as an undetected change of that field's contents (tamper-undetected:field:<field>:<position>; every transaction field under tx_data, everything inside Block.signatures under signatures): the class names the part of the stored block that verification does not cover, the detail names the form".into(),
+            "blocks committed through TensorChain::commit never carry co-signatures; blocks that do are appended through TensorChain::new_block / Block::add_signature / TensorChain::append_block after the workspace program (their transactions are not applied to the store by that interface and are not judged against it)".into(),
             "tampering is applied to the store underneath a live TensorChain instance (its in-memory height and tip hash are those of the untampered chain); re-opening the chain after tampering is not judged".into(),
             "a stored block's fields are the fields of `Block` (header fields, transactions, signatures); the auxiliary record fields _height/_hash/_timestamp next to the serialized block are not judged".into(),
             "a commit of an empty workspace returns Ok without a block and is not counted".into(),
